@@ -12,22 +12,24 @@ Record Inv (s : state) : Prop := mkInv {
   i_init : caller s = CInit -> lst s = LNone;
   i_started : caller s <> CInit -> lst s <> LNone;
   i_none : lst s = LNone ->
-           dalive s = false /\ handler s = false /\ stdout s = None /\ waiter s = false;
+           dalive s = false /\ handler s = false /\ stdout s = None /\ waiter s = false /\ selected s = false;
   i_noabn : lst s <> LAbnormal;
   i_run : lst s = LRun ->
-          (wf_from (handler s) (dalive s) (has_out s) (waiter s) (lpc s) = true /\ nbs_from (handler s) (lpc s) = true)
-          \/ (lpc s = [] /\ finished_ok s);
+          wf_from (handler s) (dalive s) (has_out s) (waiter s) (selected s) (lpc s) = true
+          /\ nbs_from (handler s) (lpc s) = true;
   i_exit : lst s = LExited -> finished_ok s /\ dparent s = pid_init;
   i_stderr : stderr s = false;
+  i_unbuf : unbuf s = false;
   i_out : stdout s = None \/ (stdout s = Some pid_daemon /\ dalive s = true);
   i_handler : dalive s = true -> handler s = true;
   i_pending : pending s = true -> done s = true;
   i_chan : sigchan s = true -> done s = true;
+  i_sel : selected s = true -> done s = true;
   i_done : done s = true -> marker s = true /\ dalive s = true /\ dpc s = DCont;
   i_notdone : dalive s = true -> done s = false -> dpc s <> DCont;
   i_marker : dalive s = true -> dpc s = DMarker \/ marker s = true;
   i_parent : dalive s = true -> lst s = LRun -> dparent s = pid_launcher;
-  i_sig : done s = true -> lst s = LRun -> pending s = true \/ sigchan s = true \/ lpc s = [];
+  i_sig : done s = true -> lst s = LRun -> pending s = true \/ sigchan s = true \/ selected s = true;
   i_ret : forall o, caller s = CRet o \/ caller s = CExit o ->
           o = Returned pid_daemon /\ ret_marker s = true /\ ret_done s = true /\ lst s = LExited
 }.
@@ -72,14 +74,14 @@ Lemma Inv_step : forall acts delay,
   forall s l s', Inv s -> step acts delay s l = Some s' -> Inv s'.
 Proof.
   intros acts delay Hwf Hnbs s l s' I Hstep.
-  destruct I as [Iinit Istarted Inone Inoabn Irun Iexit Istderr Iout Ihandler Ipending Ichan Idone Inotdone Imarker Iparent Isig Iret].
-  destruct s as [c ls pc h ch pe so se w da dp pa m d rm rd]. unfold has_out, finished_ok in *. cbn in *.
+  destruct I as [Iinit Istarted Inone Inoabn Irun Iexit Istderr Iunbuf Iout Ihandler Ipending Ichan Isel Idone Inotdone Imarker Iparent Isig Iret].
+  destruct s as [c ls pc h ch pe so se w sl ub da dp pa m d rm rd]. unfold has_out, finished_ok in *. cbn in *.
   destruct l; cbn in Hstep.
   - (* caller *)
     destruct c as [| |o|o].
     + (* CInit -> CWait: the launcher is started with the extracted program *)
       inversion Hstep; subst; clear Hstep.
-      destruct (Inone (Iinit eq_refl)) as [Hda [Hh [Hso Hw]]]. subst.
+      destruct (Inone (Iinit eq_refl)) as [Hda [Hh [Hso [Hw Hsl]]]]. subst.
       mk_inv.
     + (* CWait -> CRet *)
       destruct ls; try discriminate; [|congruence].
@@ -95,27 +97,25 @@ Proof.
   - (* launcher *)
     destruct ls; try discriminate.
     assert (Hc : c <> CInit) by (intro Hc; specialize (Iinit Hc); discriminate).
-    destruct (Irun eq_refl) as [[Hw Hn]|[Hpc Hfin]].
-    + destruct pc as [|a r]; [cbn in Hw; discriminate|].
-      destruct a; cbn in Hw, Hn, Hstep.
-      * (* ANotify *)
-        go.
-      * (* AStart *)
-        go.
-      * (* AWritePid *)
-        go.
-      * (* ASpawnWait *)
-        go.
+    destruct (Irun eq_refl) as [Hw Hn].
+    destruct pc as [|a r].
+    + (* program finished: launch returns, exit *)
+      cbn in Hw. inv_auto. subst.
+      destruct so as [p|]; [|discriminate].
+      destruct Iout as [?|[Hso _]]; [discriminate|]. inversion Hso; subst.
+      specialize (Isel eq_refl). subst.
+      mk_inv.
+    + destruct a; cbn in Hw, Hn, Hstep.
+      * (* ANotify *) go.
+      * (* AStart *) go.
+      * (* AWritePid *) go.
+      * (* ASpawnWait *) go.
       * (* ASelect *)
         inv_auto. subst. destruct ch; [|discriminate]. inv_auto.
-        destruct r; [|discriminate].
         specialize (Ichan eq_refl). subst.
-        destruct so as [p|]; [|discriminate].
-        destruct Iout as [?|[Hso _]]; [discriminate|]. inversion Hso; subst.
         mk_inv.
       * discriminate.
-    + (* program finished: exit *)
-      subst pc. go.
+      * discriminate.
   - (* daemon *)
     destruct da; [|discriminate].
     destruct dp as [|k| |].
@@ -151,7 +151,7 @@ Proof.
     destruct ls; try discriminate. destruct pe; [|discriminate].
     specialize (Ipending eq_refl). subst.
     destruct (Idone eq_refl) as [Hm [Hda Hdp]]. subst.
-    rewrite (Ihandler eq_refl) in *. inv_auto.
+    rewrite (Ihandler eq_refl) in *. cbn in Hstep. rewrite orb_true_r in Hstep. cbn in Hstep. inv_auto.
     mk_inv.
 Qed.
 
@@ -206,24 +206,23 @@ Theorem no_deadlock : forall acts,
 Proof.
   intros acts Hn Hw delay sched s Hrun Hterm.
   pose proof (Inv_run acts delay Hw Hn sched init s Inv_init Hrun) as I.
-  destruct I as [Iinit Istarted Inone Inoabn Irun Iexit Istderr Iout Ihandler Ipending Ichan Idone Inotdone Imarker Iparent Isig Iret].
-  destruct s as [c ls pc h ch pe so se w da dp pa m d rm rd]. unfold has_out, finished_ok, terminated, idle in *. cbn in *.
+  destruct I as [Iinit Istarted Inone Inoabn Irun Iexit Istderr Iunbuf Iout Ihandler Ipending Ichan Isel Idone Inotdone Imarker Iparent Isig Iret].
+  destruct s as [c ls pc h ch pe so se w sl ub da dp pa m d rm rd]. unfold has_out, finished_ok, terminated, idle in *. cbn in *.
   destruct c as [| |o|o]; try discriminate.
   - exists StepCaller. eexists. split; reflexivity.
   - destruct ls.
     + exfalso. apply Istarted; [discriminate|reflexivity].
-    + destruct (Irun eq_refl) as [[Hwf Hnb]|[Hpc _]].
-      * destruct pc as [|a r]; [discriminate|].
-        destruct a; try (exists StepLauncher; cbn; destruct da; eexists; split; reflexivity).
-        -- (* blocked in select unless the signal is there *)
-           cbn in Hwf. inv_auto. subst.
-           destruct ch; [exists StepLauncher; eexists; split; reflexivity|].
-           destruct pe; [exists Deliver; cbn; try rewrite (Ihandler eq_refl); eexists; split; reflexivity|].
-           destruct d.
-           ++ destruct (Isig eq_refl eq_refl) as [?|[?|?]]; discriminate.
-           ++ exists StepDaemon. cbn. specialize (Inotdone eq_refl eq_refl).
-              destruct dp as [|k| |]; [| destruct k | |congruence]; eexists; split; reflexivity.
-      * subst pc. exists StepLauncher. eexists. split; reflexivity.
+    + destruct (Irun eq_refl) as [Hwf Hnb].
+      destruct pc as [|a r]; [exists StepLauncher; eexists; split; reflexivity|].
+      destruct a; try (exists StepLauncher; cbn; destruct da; eexists; split; reflexivity).
+      (* blocked in select unless the signal is there *)
+      cbn in Hwf. inv_auto. subst.
+      destruct ch; [exists StepLauncher; eexists; split; reflexivity|].
+      destruct pe; [exists Deliver; cbn; try rewrite (Ihandler eq_refl); eexists; split; reflexivity|].
+      destruct d.
+      * destruct (Isig eq_refl eq_refl) as [?|[?|?]]; discriminate.
+      * exists StepDaemon. cbn. specialize (Inotdone eq_refl eq_refl).
+        destruct dp as [|k| |]; [| destruct k | |congruence]; eexists; split; reflexivity.
     + exists StepCaller. eexists. split; reflexivity.
     + congruence.
 Qed.
@@ -265,7 +264,7 @@ Lemma step_measure : forall acts delay s l s',
   fits acts delay s' /\ (idle s l = true /\ s' = s \/ measure acts delay s' < measure acts delay s).
 Proof.
   intros acts delay s l s' [F0 [F1 [F2 F3]]] Hstep.
-  destruct s as [c ls pc h ch pe so se w da dp pa m d rm rd].
+  destruct s as [c ls pc h ch pe so se w sl ub da dp pa m d rm rd].
   unfold fits, measure, idle in *. cbn in *.
   destruct l; cbn in Hstep.
   - destruct c as [| |o|o]; try discriminate.
@@ -345,12 +344,20 @@ Proof.
   - right. eauto.
 Qed.
 
-(** the well-formed programs are exactly these eight orders; two of them install the handler first *)
+(** the well-formed programs are exactly these orders (all arrangements of the five actions that pass the scan);
+    those that install the handler first are listed in [disciplined_orders] *)
+Fixpoint insert_everywhere (a : action) (l : list action) : list (list action) :=
+  match l with
+  | [] => [[a]]
+  | b :: r => (a :: l) :: map (cons b) (insert_everywhere a r)
+  end.
+Fixpoint perms (l : list action) : list (list action) :=
+  match l with
+  | [] => [[]]
+  | a :: r => flat_map (insert_everywhere a) (perms r)
+  end.
 Definition wf_orders : list (list action) :=
-  [ [ANotify; AStart; AWritePid; ASpawnWait; ASelect]; [ANotify; AStart; ASpawnWait; AWritePid; ASelect];
-    [AStart; ANotify; AWritePid; ASpawnWait; ASelect]; [AStart; ANotify; ASpawnWait; AWritePid; ASelect];
-    [AStart; AWritePid; ANotify; ASpawnWait; ASelect]; [AStart; ASpawnWait; ANotify; AWritePid; ASelect];
-    [AStart; AWritePid; ASpawnWait; ANotify; ASelect]; [AStart; ASpawnWait; AWritePid; ANotify; ASelect] ].
+  Eval vm_compute in filter well_formed (perms [ANotify; AStart; AWritePid; ASpawnWait; ASelect]).
 
 Lemma well_formed_orders : forall acts, well_formed acts = true <-> In acts wf_orders.
 Proof.
@@ -362,9 +369,13 @@ Proof.
     repeat (destruct H as [H|H]; [subst; reflexivity|]). destruct H.
 Qed.
 
+Example count_orders : List.length wf_orders = 11.
+Proof. vm_compute. reflexivity. Qed.
+
 Example disciplined_orders :
   filter notify_before_start wf_orders
-  = [ [ANotify; AStart; AWritePid; ASpawnWait; ASelect]; [ANotify; AStart; ASpawnWait; AWritePid; ASelect] ].
+  = [ [ANotify; AStart; AWritePid; ASpawnWait; ASelect]; [ANotify; AStart; ASpawnWait; AWritePid; ASelect];
+      [ANotify; AStart; ASpawnWait; ASelect; AWritePid] ].
 Proof. vm_compute. reflexivity. Qed.
 
 (** a skipping run is a run of the schedule without the disabled steps *)
@@ -393,3 +404,21 @@ Proof.
           [subst; first [discriminate Hn|repeat split; vm_compute; reflexivity]|]).
   destruct Hw.
 Qed.
+
+(** ** an unbuffered Notify channel: a signal that arrives while the launcher is not parked in its select is
+    dropped, the launcher then waits forever and Launch never returns although the daemon called Done() *)
+Definition unbuffered_order : list action := [ANotifyUnbuffered; AStart; AWritePid; ASpawnWait; ASelect].
+
+Lemma unbuffered_deadlock : exists sched s,
+  run unbuffered_order 0 init sched = Some s /\ terminated s = false /\ done s = true /\ dalive s = true /\
+  forall l s', step unbuffered_order 0 s l = Some s' -> idle s l = true /\ s' = s.
+Proof.
+  exists [StepCaller; StepLauncher; StepLauncher; StepDaemon; StepDaemon; StepDaemon; Deliver;
+          StepLauncher; StepLauncher].
+  eexists. split; [vm_compute; reflexivity|]. repeat split; try (vm_compute; reflexivity).
+  - destruct l; vm_compute in H; try discriminate. reflexivity.
+  - destruct l; vm_compute in H; try discriminate. inversion H. reflexivity.
+Qed.
+
+Example unbuffered_not_well_formed : well_formed unbuffered_order = false.
+Proof. vm_compute. reflexivity. Qed.
